@@ -16,12 +16,17 @@ mutual
     | .dtUtc _ => 3
     | .dtIso _ => 3
     | .record _ vals => 3 + max 1 (needList vals)
-    | .grouped _ _ => 0
+    | .grouped _ ms => 5 + max 1 (needMembers ms)
     | .desc _ => 5
     | _ => 1
   def needList : List PV → Nat
     | [] => 0
     | x :: xs => max (need x) (needList xs)
+  /-- members of a grouped record travel as bare `[identifier, values]` pairs -/
+  def needMembers : List PV → Nat
+    | [] => 0
+    | .record _ vals :: xs => max (needList vals) (needMembers xs)
+    | _ :: xs => needMembers xs
 end
 
 theorem fromM_leaf (reg : Registry) (f : Nat) :
@@ -111,7 +116,7 @@ theorem mstr_ok (s : PyStr) (h : strOK s) : ∃ b, mstr s = some (.str b) ∧ b.
 
 -- What can be written and read back unchanged (packed level): text in the image of decode/surrogateescape,
 -- lengths a msgpack header can carry, envelope payloads below 4 GiB, and — for records — a registry in which the
--- record's identifier is bound to its own descriptor. Grouped records are outside this predicate (partial).
+-- record's identifier is bound to its own descriptor; a grouped record's members likewise.
 mutual
   def PVOK (reg : Registry) : PV → Prop
     | .none => True
@@ -131,11 +136,20 @@ mutual
         vals.length ≤ d.fields.length + Gen.RESERVED_FIELDS.length ∧ vals.length < 4294967296 ∧ PVOKList reg vals ∧
         (∀ i vs, identM d = some i → toMList vals = some vs →
           (enc (.arr [.int tRecord, .arr [i, .arr vs]])).length < 4294967296)
-    | .grouped _ _ => False
+    | .grouped name ms => strOK name ∧ ms.length < 4294967296 ∧ PVOKMembers reg ms ∧
+        (∀ n members, mstr name = some n → toMMembers ms = some members →
+          (enc (.arr [.int tGrouped, .arr [n, .arr members]])).length < 4294967296)
     | .desc _ => False
   def PVOKList (reg : Registry) : List PV → Prop
     | [] => True
     | x :: xs => PVOK reg x ∧ PVOKList reg xs
+  /-- members of a grouped record: records whose identifiers are bound to their own descriptors (their values are not
+      cut or padded to the descriptor's length on reading, unlike those of a top-level record) -/
+  def PVOKMembers (reg : Registry) : List PV → Prop
+    | [] => True
+    | .record d vals :: xs => strOK d.name ∧ d.hash < 18446744073709551616 ∧ lookup reg d.name d.hash = some d ∧
+        vals.length < 4294967296 ∧ PVOKList reg vals ∧ PVOKMembers reg xs
+    | _ :: _ => False
 end
 
 -- What the packer produces for an admissible value is something msgpack can represent.
@@ -186,7 +200,16 @@ theorem toM_WF (reg : Registry) (pv : PV) (m : MVal) (hok : PVOK reg pv) (hm : t
       | some vs =>
         simp [hi, hv] at hm; subst hm
         exact ⟨by decide, hok.2.2.2.2.2.2 i vs hi hv⟩
-  | .grouped _ _, hok, _ => exact absurd hok (by simp [PVOK])
+  | .grouped name ms, hok, hm =>
+    simp only [toM, bind, Option.bind] at hm
+    cases hn : mstr name with
+    | none => simp [hn] at hm
+    | some n =>
+      cases hv : toMMembers ms with
+      | none => simp [hn, hv] at hm
+      | some members =>
+        simp [hn, hv] at hm; subst hm
+        exact ⟨by decide, hok.2.2.2 n members hn hv⟩
   | .desc _, hok, _ => exact absurd hok (by simp [PVOK])
 theorem toMList_WF (reg : Registry) (xs : List PV) (ms : List MVal) (hok : PVOKList reg xs)
     (hm : toMList xs = some ms) : WFList ms := by
@@ -217,6 +240,83 @@ theorem toMList_length (xs : List PV) (ms : List MVal) (hm : toMList xs = some m
         simp [toMList_length xs r hr]
 end
 
+
+/-- what the members of a grouped record look like after msgpack decoding, before `unpack_obj` -/
+def memberTuples : List PV → List RV
+  | [] => []
+  | .record d vals :: xs =>
+    RV.tuple [.tuple [.str d.name, .int d.hash], .tuple (rvOfList vals)] :: memberTuples xs
+  | _ :: xs => memberTuples xs
+
+/-- the packed members of an admissible group are representable, one per member -/
+theorem toMMembers_WF (reg : Registry) : ∀ (ms : List PV) (members : List MVal), PVOKMembers reg ms →
+    toMMembers ms = some members → WFList members ∧ members.length = ms.length := by
+  intro ms
+  induction ms with
+  | nil => intro members _ hm; simp [toMMembers] at hm; subst hm; exact ⟨trivial, rfl⟩
+  | cons x xs ih =>
+    intro members hok hm
+    cases x with
+    | record d vals =>
+      obtain ⟨hname, hhash, _, hlen, hvals, hrest⟩ := hok
+      obtain ⟨nb, hn1, hn2, _⟩ := mstr_ok d.name hname
+      have hi : identM d = some (.arr [.str nb, .int d.hash]) := by simp [identM, hn1]
+      simp only [toMMembers, bind, Option.bind, hi] at hm
+      cases hv : toMList vals with
+      | none => simp [hv] at hm
+      | some vs =>
+        cases hr : toMMembers xs with
+        | none => simp [hv, hr] at hm
+        | some r =>
+          simp [hv, hr] at hm; subst hm
+          obtain ⟨h1, h2⟩ := ih r hrest hr
+          have hwvs : WFList vs := toMList_WF reg vals vs hvals hv
+          have hvl : vs.length = vals.length := toMList_length vals vs hv
+          refine ⟨⟨?_, h1⟩, by simp [h2]⟩
+          simp only [WF, WFList, List.length_cons, List.length_nil]
+          exact ⟨by omega, ⟨by omega, hn2, ⟨by omega, by omega⟩, trivial⟩, ⟨by omega, hwvs⟩, trivial⟩
+    | _ => simp [PVOKMembers] at hok
+
+/-- `unpack_obj` on the decoded members: every identifier is looked up, the values are kept as they are -/
+theorem members_lookup (reg : Registry) : ∀ (ms : List PV), PVOKMembers reg ms →
+    (memberTuples ms).mapM (fun m => match m with
+      | .tuple [ident, .tuple vals] =>
+        match lookupIdent reg ident with
+        | .ok d => Except.ok (RV.record d vals)
+        | .error e => Except.error e
+      | _ => Except.error Err.badShape) = .ok (rvOfList ms) := by
+  intro ms
+  induction ms with
+  | nil => intro _; rfl
+  | cons x xs ih =>
+    intro hok
+    cases x with
+    | record d vals =>
+      obtain ⟨_, _, hlook, _, _, hrest⟩ := hok
+      have hl2 : lookup reg d.name (Int.toNat (d.hash : Int)) = some d := by simpa using hlook
+      have hhead : lookupIdent reg (.tuple [.str d.name, .int d.hash]) = .ok d := by
+        simp [lookupIdent, strOf, hlook]
+      simp only [memberTuples, List.mapM_cons, hhead, ih hrest, rvOfList, rvOf]
+      rfl
+    | _ => simp [PVOKMembers] at hok
+
+theorem unpackEnvelope_grouped (reg : Registry) (name : PyStr) (tuples : List RV) (rs : List RV)
+    (h : tuples.mapM (fun m => match m with
+      | .tuple [ident, .tuple vals] =>
+        match lookupIdent reg ident with
+        | .ok d => Except.ok (RV.record d vals)
+        | .error e => Except.error e
+      | _ => Except.error Err.badShape) = .ok rs) :
+    unpackEnvelope reg (.int tGrouped) (.tuple [.str name, .tuple tuples]) = .ok (.grouped name rs) := by
+  simp [unpackEnvelope, tGrouped, tRecord, tDatetime, tVarint, Gen.RECORD_PACK_TYPE_GROUPEDRECORD,
+    Gen.RECORD_PACK_TYPE_RECORD, Gen.RECORD_PACK_TYPE_DATETIME, Gen.RECORD_PACK_TYPE_VARINT, strOf]
+  split
+  · rename_i rs' heq
+    have e : Except.ok rs' = (Except.ok rs : Except Err (List RV)) := heq.symm.trans h
+    cases e; rfl
+  · rename_i e' heq
+    have e : Except.error e' = (Except.ok rs : Except Err (List RV)) := heq.symm.trans h
+    cases e
 
 theorem fromM_str (reg : Registry) (f : Nat) (b : Bytes) : fromM reg (f + 1) (.str b) = .ok (.str (decodeSE b)) :=
   (fromM_leaf reg f).2.2.2.2.1 b
@@ -344,8 +444,65 @@ theorem fromM_toM (reg : Registry) (pv : PV) (m : MVal) (f : Nat) (hok : PVOK re
       have hl2 : lookup reg d.name (Int.toNat (d.hash : Int)) = some d := by simpa using hlook
       simp only [hl2, rvOf, fitValues_id d (rvOfList vals) (by rw [rvOfList_length]; exact hfit)]
       simp
-  | .grouped _ _, hok, _, _ => exact absurd hok (by simp [PVOK])
+  | .grouped name ms, hok, hm, hf =>
+    obtain ⟨hname, hlen, hmem, hsize⟩ := hok
+    obtain ⟨f, rfl, hf1, hfm⟩ : ∃ g, f = g + 5 ∧ 1 ≤ g ∧ needMembers ms ≤ g :=
+      ⟨f - 5, by simp [need] at hf; omega, by simp [need] at hf; omega, by simp [need] at hf; omega⟩
+    obtain ⟨nb, hn1, hn2, hn3⟩ := mstr_ok name hname
+    simp only [toM, bind, Option.bind, hn1] at hm
+    cases hv : toMMembers ms with
+    | none => simp [hv] at hm
+    | some members =>
+      simp [hv] at hm; subst hm
+      obtain ⟨hwm, hml⟩ := toMMembers_WF reg ms members hmem hv
+      have hmems := fromMList_members reg ms members f hmem hv hfm hf1
+      have hw : WF (.arr [.str nb, .arr members]) := by
+        simp only [WF, WFList, List.length_cons, List.length_nil]
+        exact ⟨by omega, hn2, ⟨by omega, hwm⟩, trivial⟩
+      have hval : fromM reg (f + 4) (.arr [.str nb, .arr members]) =
+          .ok (.tuple [.str name, .tuple (memberTuples ms)]) := by
+        rw [fromM_arr, fromMList_cons, fromMList_cons, fromMList_nil, fromM_str, hn3, fromM_arr, hmems]
+        rfl
+      rw [fromM_envelope reg (f + 4) tGrouped _ _ _ (by decide) hw (hsize _ members hn1 hv)
+        (fromM_int_sub reg (f + 3) tGrouped) hval]
+      rw [unpackEnvelope_grouped reg name (memberTuples ms) (rvOfList ms) (members_lookup reg ms hmem)]
+      simp [rvOf]
   | .desc _, hok, _, _ => exact absurd hok (by simp [PVOK])
+theorem fromMList_members (reg : Registry) (ms : List PV) (members : List MVal) (f : Nat) (hok : PVOKMembers reg ms)
+    (hm : toMMembers ms = some members) (hf : needMembers ms ≤ f) (hf1 : 1 ≤ f) :
+    fromMList reg (f + 2) members = .ok (memberTuples ms) := by
+  match ms, hok, hm, hf with
+  | [], _, hm, _ => simp [toMMembers] at hm; subst hm; exact fromMList_nil reg _
+  | .record d vals :: xs, hok, hm, hf =>
+    obtain ⟨hname, hhash, _, hlen, hvals, hrest⟩ := hok
+    obtain ⟨g, rfl⟩ : ∃ g, f = g + 1 := ⟨f - 1, by omega⟩
+    obtain ⟨nb, hn1, hn2, hn3⟩ := mstr_ok d.name hname
+    have hi : identM d = some (.arr [.str nb, .int d.hash]) := by simp [identM, hn1]
+    simp only [toMMembers, bind, Option.bind, hi] at hm
+    cases hv : toMList vals with
+    | none => simp [hv] at hm
+    | some vs =>
+      cases hr : toMMembers xs with
+      | none => simp [hv, hr] at hm
+      | some r =>
+        simp [hv, hr] at hm; subst hm
+        have hvs := fromMList_toMList reg vals vs (g + 1) hvals hv (by simp [needMembers] at hf; omega)
+        have hrs := fromMList_members reg xs r (g + 1) hrest hr (by simp [needMembers] at hf; omega) hf1
+        rw [fromMList_cons, hrs, fromM_arr, fromMList_cons, fromMList_cons, fromMList_nil, fromM_arr, fromM_arr, hvs,
+          fromMList_cons, fromMList_cons, fromMList_nil, fromM_str, hn3, (fromM_leaf reg g).2.2.1]
+        rfl
+  | .none :: _, hok, _, _ => exact absurd hok (by simp [PVOKMembers])
+  | .bool _ :: _, hok, _, _ => exact absurd hok (by simp [PVOKMembers])
+  | .int _ :: _, hok, _, _ => exact absurd hok (by simp [PVOKMembers])
+  | .float _ :: _, hok, _, _ => exact absurd hok (by simp [PVOKMembers])
+  | .str _ :: _, hok, _, _ => exact absurd hok (by simp [PVOKMembers])
+  | .bytes _ :: _, hok, _, _ => exact absurd hok (by simp [PVOKMembers])
+  | .seq _ :: _, hok, _, _ => exact absurd hok (by simp [PVOKMembers])
+  | .dict _ :: _, hok, _, _ => exact absurd hok (by simp [PVOKMembers])
+  | .dtUtc _ :: _, hok, _, _ => exact absurd hok (by simp [PVOKMembers])
+  | .dtIso _ :: _, hok, _, _ => exact absurd hok (by simp [PVOKMembers])
+  | .grouped _ _ :: _, hok, _, _ => exact absurd hok (by simp [PVOKMembers])
+  | .desc _ :: _, hok, _, _ => exact absurd hok (by simp [PVOKMembers])
 theorem fromMList_toMList (reg : Registry) (xs : List PV) (ms : List MVal) (f : Nat) (hok : PVOKList reg xs)
     (hm : toMList xs = some ms) (hf : needList xs ≤ f) : fromMList reg f ms = .ok (rvOfList xs) := by
   match xs, hok, hm, hf with
